@@ -643,6 +643,34 @@ def where(node):
     return '%s:%s' % (f, node.get('_line'))
 
 
+class _Functions(dict):
+    """name -> definition for one unit; a non-static function that lives in another core unit of the same program is found
+    too (a function moved to a new source file is still the same anchor).  Iteration lists this unit's own functions only."""
+    prog = None
+
+    def _other(self, name):
+        p = self.prog
+        ix2 = p.fn_unit.get(name) if p is not None else None
+        if ix2 is not None and dict.__contains__(ix2.functions, name):
+            return dict.__getitem__(ix2.functions, name)
+        return None
+
+    def __missing__(self, name):
+        fn = self._other(name)
+        if fn is None:
+            raise KeyError(name)
+        return fn
+
+    def get(self, name, default=None):
+        if dict.__contains__(self, name):
+            return dict.__getitem__(self, name)
+        fn = self._other(name)
+        return default if fn is None else fn
+
+    def __contains__(self, name):
+        return dict.__contains__(self, name) or self._other(name) is not None
+
+
 class Program(object):
     """All units of one configuration, with cross-unit function resolution."""
 
@@ -663,15 +691,19 @@ class Program(object):
                 if fn.get('storageClass') == 'static':
                     continue
                 self.fn_unit.setdefault(name, ix)
+        for ix in self.index.values():
+            if not isinstance(ix.functions, _Functions):
+                f = _Functions(ix.functions)
+                ix.functions = f
+            ix.functions.prog = self
 
     def resolve(self, ix, name):
         """Definition of function `name` as seen from unit index ix."""
-        fn = ix.functions.get(name)
-        if fn is not None:
-            return ix, fn
+        if dict.__contains__(ix.functions, name):
+            return ix, dict.__getitem__(ix.functions, name)
         ix2 = self.fn_unit.get(name)
-        if ix2 is not None:
-            return ix2, ix2.functions[name]
+        if ix2 is not None and dict.__contains__(ix2.functions, name):
+            return ix2, dict.__getitem__(ix2.functions, name)
         return None, None
 
     def unit(self, path):
